@@ -1,9 +1,412 @@
 package main
 
-// Model of net connections (filled in with the mailbox checks).
+// Model of net (listeners, reliable FIFO connections carrying gob items) and net/rpc (calls routed to the REAL
+// receiver method on a fresh goroutine, arguments and replies deep-copied through the gob model).
 
-func registerNetIntrinsics() {}
+import (
+	"fmt"
+	"go/types"
+	"strings"
 
-func (p *Path) connStream(w Iface, write bool) *gobStream { return nil }
+	"golang.org/x/tools/go/ssa"
+)
 
-func (p *Path) connWaitReadable(th *Thread, r Iface, s *gobStream) Iface { return Iface{} }
+type mListener struct {
+	addr     string
+	closed   bool
+	queue    []*mConnEnd
+	accepted []*mConnEnd
+}
+
+type mConnEnd struct {
+	rx       *gobStream // items waiting to be read at this end
+	peer     *mConnEnd
+	closed   bool
+	server   *mServer
+	deadline bool // a read deadline is set
+	id       int
+	timer    *Timer
+}
+
+type mServer struct {
+	rcvrs map[string]Iface
+}
+
+type mClient struct {
+	end      *mConnEnd
+	shutdown bool
+}
+
+type netWorld struct {
+	listeners map[string]*mListener
+	nconn     int
+	faultDial bool
+}
+
+func (p *Path) net() *netWorld {
+	w, ok := p.side["netWorld"].(*netWorld)
+	if !ok {
+		w = &netWorld{listeners: map[string]*mListener{}}
+		p.side["netWorld"] = w
+	}
+	return w
+}
+
+func (p *Path) netType(pkg, name string) types.Type {
+	return types.NewPointer(p.e.pkgs[pkg].Type(name).Type())
+}
+
+func (p *Path) newNetObject(pkg, typ string, state any) Iface {
+	cell := p.newModelObject(pkg, typ, state)
+	return Iface{t: p.netType(pkg, typ), v: cell}
+}
+
+func (p *Path) connEnd(v Value) *mConnEnd {
+	switch x := v.(type) {
+	case Iface:
+		if x.t == nil {
+			return nil
+		}
+		return p.connEnd(x.v)
+	case *Value:
+		if x == nil {
+			return nil
+		}
+		e, _ := p.side[x].(*mConnEnd)
+		return e
+	}
+	return nil
+}
+
+func (p *Path) connStream(w Iface, write bool) *gobStream {
+	if strings.HasSuffix(w.t.String(), "readWriterConnTimeout") {
+		st, ok := w.v.(Struct)
+		if !ok {
+			if ptr, isPtr := w.v.(*Value); isPtr && ptr != nil {
+				st = (*ptr).(Struct)
+			}
+		}
+		return p.connStream(st[0].(Iface), write)
+	}
+	e := p.connEnd(w)
+	if e == nil {
+		return nil
+	}
+	if write {
+		if e.closed || e.peer.closed {
+			return &gobStream{closed: true}
+		}
+		return e.peer.rx
+	}
+	return e.rx
+}
+
+func (p *Path) connOf(w Iface) *mConnEnd {
+	if strings.HasSuffix(w.t.String(), "readWriterConnTimeout") {
+		st, ok := w.v.(Struct)
+		if !ok {
+			if ptr, isPtr := w.v.(*Value); isPtr && ptr != nil {
+				st = (*ptr).(Struct)
+			}
+		}
+		return p.connOf(st[0].(Iface))
+	}
+	return p.connEnd(w)
+}
+
+// connWaitReadable blocks until an item is available; returns io.EOF when the peer closed, a timeout error when the
+// read deadline expires (modelled as a timer that may fire when the system is otherwise idle).
+func (p *Path) connWaitReadable(th *Thread, r Iface, s *gobStream) Iface {
+	e := p.connOf(r)
+	if e == nil {
+		return Iface{}
+	}
+	var t *Timer
+	if e.deadline {
+		t = p.sched.newTimer(false, "ReadDeadline")
+		th.waitCases = []selCase{{ch: t.ch}}
+	}
+	p.sched.syncPoint(th, func() bool {
+		return len(e.rx.items) > 0 || e.closed || e.peer.closed || (t != nil && len(t.ch.buf) > 0)
+	})
+	th.waitCases = nil
+	if t != nil {
+		t.stopped = true
+	}
+	if len(e.rx.items) > 0 {
+		return Iface{}
+	}
+	if e.closed {
+		return mkExtErr("use of closed network connection")
+	}
+	if e.peer.closed {
+		return p.ioEOF()
+	}
+	return mkExtErr("i/o timeout")
+}
+
+func (p *Path) errShutdown() Iface {
+	if pkg := p.e.pkgs["net/rpc"]; pkg != nil {
+		if g, ok := pkg.Members["ErrShutdown"].(*ssa.Global); ok {
+			return (*p.globalAddr(g)).(Iface)
+		}
+	}
+	return mkExtErr("connection is shut down")
+}
+
+func registerNetIntrinsics() {
+	listen := func(p *Path, th *Thread, fr *Frame, args []Value) Value {
+		addr := args[1].(string)
+		w := p.net()
+		if l, ok := w.listeners[addr]; ok && !l.closed {
+			return Tuple{Iface{}, mkExtErr("listen tcp " + addr + ": bind: address already in use")}
+		}
+		l := &mListener{addr: addr}
+		w.listeners[addr] = l
+		return Tuple{p.newNetObject("net", "TCPListener", l), Iface{}}
+	}
+	intrinsics["net.Listen"] = listen
+	accept := func(p *Path, th *Thread, fr *Frame, args []Value) Value {
+		l := p.side[args[0].(*Value)].(*mListener)
+		p.sched.syncPoint(th, func() bool { return len(l.queue) > 0 || l.closed })
+		if len(l.queue) == 0 {
+			return Tuple{Iface{}, mkExtErr("accept tcp " + l.addr + ": use of closed network connection")}
+		}
+		e := l.queue[0]
+		l.queue = l.queue[1:]
+		l.accepted = append(l.accepted, e)
+		return Tuple{p.newNetObject("net", "TCPConn", e), Iface{}}
+	}
+	intrinsics["(*net.TCPListener).Accept"] = accept
+	intrinsics["(*net.TCPListener).Close"] = func(p *Path, th *Thread, fr *Frame, args []Value) Value {
+		l := p.side[args[0].(*Value)].(*mListener)
+		if l.closed {
+			return mkExtErr("close tcp: use of closed network connection")
+		}
+		l.closed = true
+		return Iface{}
+	}
+	intrinsics["(*net.TCPListener).Addr"] = func(p *Path, th *Thread, fr *Frame, args []Value) Value { return Iface{} }
+	dial := func(p *Path, addr string) Value {
+		w := p.net()
+		l, ok := w.listeners[addr]
+		if !ok || l.closed {
+			return Tuple{Iface{}, mkExtErr("dial tcp " + addr + ": connect: connection refused")}
+		}
+		w.nconn++
+		a := &mConnEnd{rx: &gobStream{}, id: w.nconn}
+		b := &mConnEnd{rx: &gobStream{}, id: w.nconn}
+		a.peer, b.peer = b, a
+		l.queue = append(l.queue, b)
+		return Tuple{p.newNetObject("net", "TCPConn", a), Iface{}}
+	}
+	intrinsics["net.DialTimeout"] = func(p *Path, th *Thread, fr *Frame, args []Value) Value {
+		return dial(p, args[1].(string))
+	}
+	intrinsics["net.Dial"] = func(p *Path, th *Thread, fr *Frame, args []Value) Value {
+		return dial(p, args[1].(string))
+	}
+	intrinsics["(*net.Dialer).Dial"] = func(p *Path, th *Thread, fr *Frame, args []Value) Value {
+		return dial(p, args[2].(string))
+	}
+	intrinsics["(*net.TCPConn).Close"] = func(p *Path, th *Thread, fr *Frame, args []Value) Value {
+		e := p.side[args[0].(*Value)].(*mConnEnd)
+		if e.closed {
+			return mkExtErr("use of closed network connection")
+		}
+		e.closed = true
+		return Iface{}
+	}
+	intrinsics["(*net.conn).Close"] = intrinsics["(*net.TCPConn).Close"]
+	setDeadline := func(p *Path, th *Thread, fr *Frame, args []Value) Value {
+		e := p.side[args[0].(*Value)].(*mConnEnd)
+		// a zero time.Time clears the deadline
+		t := args[1].(Struct)
+		ext := t[1].(*Term)
+		wall := t[0].(*Term)
+		e.deadline = !(ext.IsConst() && ext.val == 0 && wall.IsConst() && wall.val == 0)
+		return Iface{}
+	}
+	intrinsics["(*net.TCPConn).SetReadDeadline"] = setDeadline
+	intrinsics["(*net.conn).SetReadDeadline"] = setDeadline
+	noDeadline := func(p *Path, th *Thread, fr *Frame, args []Value) Value { return Iface{} }
+	intrinsics["(*net.TCPConn).SetWriteDeadline"] = noDeadline
+	intrinsics["(*net.conn).SetWriteDeadline"] = noDeadline
+	intrinsics["(*net.TCPConn).SetDeadline"] = noDeadline
+	intrinsics["(*net.conn).SetDeadline"] = noDeadline
+
+	// ---------- net/rpc ----------
+	intrinsics["net/rpc.NewServer"] = func(p *Path, th *Thread, fr *Frame, args []Value) Value {
+		return p.newModelObject("net/rpc", "Server", &mServer{rcvrs: map[string]Iface{}})
+	}
+	intrinsics["(*net/rpc.Server).Register"] = func(p *Path, th *Thread, fr *Frame, args []Value) Value {
+		s := p.side[args[0].(*Value)].(*mServer)
+		rcvr := args[1].(Iface)
+		t := rcvr.t
+		if pt, ok := t.(*types.Pointer); ok {
+			t = pt.Elem()
+		}
+		name := t.String()
+		if n, ok := t.(*types.Named); ok {
+			name = n.Obj().Name()
+		}
+		s.rcvrs[name] = rcvr
+		return Iface{}
+	}
+	intrinsics["(*net/rpc.Server).RegisterName"] = func(p *Path, th *Thread, fr *Frame, args []Value) Value {
+		s := p.side[args[0].(*Value)].(*mServer)
+		s.rcvrs[args[1].(string)] = args[2].(Iface)
+		return Iface{}
+	}
+	intrinsics["(*net/rpc.Server).ServeConn"] = func(p *Path, th *Thread, fr *Frame, args []Value) Value {
+		s := p.side[args[0].(*Value)].(*mServer)
+		e := p.connEnd(args[1])
+		e.server = s
+		th.daemon = true
+		p.sched.syncPoint(th, func() bool { return e.closed || e.peer.closed })
+		return nil
+	}
+	intrinsics["(*net/rpc.Server).Accept"] = func(p *Path, th *Thread, fr *Frame, args []Value) Value {
+		s := p.side[args[0].(*Value)].(*mServer)
+		lis := args[1].(Iface)
+		l := p.side[lis.v.(*Value)].(*mListener)
+		th.daemon = true
+		for {
+			p.sched.syncPoint(th, func() bool { return len(l.queue) > 0 || l.closed })
+			if len(l.queue) == 0 {
+				return nil
+			}
+			e := l.queue[0]
+			l.queue = l.queue[1:]
+			l.accepted = append(l.accepted, e)
+			e.server = s
+		}
+	}
+	intrinsics["net/rpc.NewClient"] = func(p *Path, th *Thread, fr *Frame, args []Value) Value {
+		return p.newModelObject("net/rpc", "Client", &mClient{end: p.connEnd(args[0])})
+	}
+	intrinsics["(*net/rpc.Client).Close"] = func(p *Path, th *Thread, fr *Frame, args []Value) Value {
+		c := p.side[args[0].(*Value)].(*mClient)
+		if c.shutdown {
+			return p.errShutdown()
+		}
+		c.shutdown = true
+		c.end.closed = true
+		return Iface{}
+	}
+	intrinsics["(*net/rpc.Client).Go"] = func(p *Path, th *Thread, fr *Frame, args []Value) Value {
+		return p.rpcGo(th, fr, args)
+	}
+	intrinsics["(*net/rpc.Client).Call"] = func(p *Path, th *Thread, fr *Frame, args []Value) Value {
+		call := p.rpcGo(th, fr, append(args, (*ChanObj)(nil))).(*Value)
+		st := (*call).(Struct)
+		done := st[4].(*ChanObj)
+		p.chanRecv(th, done, (*Value)(nil))
+		return st[3]
+	}
+}
+
+// rpcGo implements (*rpc.Client).Go: args = client, serviceMethod, args, reply, done.
+func (p *Path) rpcGo(th *Thread, fr *Frame, args []Value) Value {
+	c := p.side[args[0].(*Value)].(*mClient)
+	method := args[1].(string)
+	callT := p.e.pkgs["net/rpc"].Type("Call").Type()
+	cell := new(Value)
+	st := p.e.zero(p.tt, callT).(Struct)
+	*cell = st
+	st = (*cell).(Struct)
+	st[0] = method
+	st[1] = args[2]
+	st[2] = args[3]
+	done, _ := args[4].(*ChanObj)
+	if done == nil {
+		done = p.sched.newChan(10)
+	}
+	st[4] = done
+	argIface := args[2].(Iface)
+	replyIface := args[3].(Iface)
+	finish := func(t *Thread, err Iface) {
+		st[3] = err
+		if len(done.buf) < done.cap {
+			done.buf = append(done.buf, cell)
+		}
+	}
+	p.sched.spawn("rpc:"+method, func(t *Thread) {
+		t.daemon = true
+		end := c.end
+		p.sched.syncPoint(t, func() bool { return c.shutdown || end.closed || end.peer.closed || end.peer.server != nil })
+		if c.shutdown || end.closed || end.peer.closed {
+			finish(t, p.errShutdown())
+			return
+		}
+		srv := end.peer.server
+		dot := strings.LastIndex(method, ".")
+		if dot < 0 {
+			finish(t, mkExtErr("rpc: service/method request ill-formed: "+method))
+			return
+		}
+		rcvr, ok := srv.rcvrs[method[:dot]]
+		if !ok {
+			finish(t, mkExtErr("rpc: can't find service "+method))
+			return
+		}
+		m := p.safeLookup(rcvr.t, method[dot+1:])
+		if m == nil {
+			finish(t, mkExtErr("rpc: can't find method "+method))
+			return
+		}
+		sig := m.Signature
+		argT := sig.Params().At(0).Type()
+		replyT := sig.Params().At(1).Type().(*types.Pointer).Elem()
+		// deep copy of the argument through the gob model: the callee never sees the caller's pointers
+		g, err := p.gobEncodeVal(t, nil, argIface.t, argIface.v)
+		if err.t != nil {
+			finish(t, err)
+			return
+		}
+		argCell := new(Value)
+		var argVal Value
+		if pt, isPtr := argT.(*types.Pointer); isPtr {
+			*argCell = p.e.zero(p.tt, pt.Elem())
+			if derr := p.gobDecodeInto(t, nil, argCell, pt.Elem(), g); derr.t != nil {
+				finish(t, derr)
+				return
+			}
+			argVal = argCell
+		} else {
+			*argCell = p.e.zero(p.tt, argT)
+			if derr := p.gobDecodeInto(t, nil, argCell, argT, g); derr.t != nil {
+				finish(t, derr)
+				return
+			}
+			argVal = load(argCell)
+		}
+		replyCell := new(Value)
+		*replyCell = p.e.zero(p.tt, replyT)
+		res := p.call(t, nil, m, []Value{rcvr.v, argVal, replyCell})
+		if rerr := res.(Iface); rerr.t != nil {
+			// net/rpc transports only the error text (rpc.ServerError)
+			finish(t, mkExtErr("rpc server error: "+p.panicString(rerr)))
+			return
+		}
+		if c.shutdown || end.closed {
+			finish(t, p.errShutdown())
+			return
+		}
+		rg, err := p.gobEncodeVal(t, nil, replyT, load(replyCell))
+		if err.t != nil {
+			finish(t, err)
+			return
+		}
+		if rp, ok := replyIface.v.(*Value); ok && rp != nil {
+			if derr := p.gobDecodeInto(t, nil, rp, replyIface.t.(*types.Pointer).Elem(), rg); derr.t != nil {
+				finish(t, derr)
+				return
+			}
+		}
+		finish(t, Iface{})
+	})
+	return cell
+}
+
+var _ = fmt.Sprint
